@@ -130,6 +130,8 @@ pub struct TxSpec {
     pub burns: Vec<MintSpec>,
     pub validity: Option<(Option<SlotExpr>, Option<SlotExpr>)>,
     pub signers: Vec<usize>,
+    /// Bytes parameters used as signer key hashes
+    pub signer_params: Vec<String>,
     pub metadata: Vec<(u64, MetaVal)>,
     pub directives: Vec<Directive>,
     pub balanced: bool,
@@ -336,10 +338,13 @@ impl Program {
             }
             s.push_str("    }\n");
         }
-        if !tx.signers.is_empty() {
+        if !tx.signers.is_empty() || !tx.signer_params.is_empty() {
             s.push_str("    signers {\n");
             for p in &tx.signers {
                 s.push_str(&format!("        {},\n", self.parties[*p].name));
+            }
+            for p in &tx.signer_params {
+                s.push_str(&format!("        {},\n", p));
             }
             s.push_str("    }\n");
         }
@@ -749,6 +754,11 @@ fn gen_tx(t: &mut Tape, cfg: &GenCfg, p: &mut Program, k: usize) -> TxSpec {
                 if !tx.signers.contains(&x) {
                     tx.signers.push(x);
                 }
+            }
+            if t.chance(1, 3) {
+                let name = format!("kb{}", params.len());
+                params.push((name.clone(), Ty::Bytes));
+                tx.signer_params.push(name);
             }
         }
         if t.chance(1, 4) {
